@@ -8,7 +8,7 @@ from sim import cvcase, cvrun, driver
 PROPERTY = 'C02'
 ENGINE = 'cv-timeout'
 BUDGET_S = {'quick': 170, 'thorough': 1500}
-CASE_TIMEOUT_S = 900
+CASE_TIMEOUT_S = 1200
 STUBS = ['cli.common.signal -> FakeSignal/VirtualAlarm (handler called at the k-th line event of an attempt)',
          'pathos ParallelPool -> SimPool']
 PROBES = ['corpus_case', 'step_cap_discarded', 'alarm_fired', 'retry_depth_ge_2', 'ladder_exhausted', 'timeout_swallowed_by_skip_failed',
